@@ -292,7 +292,7 @@ func (g *Gen) genSwitch(budget int) Stmt {
 	t := []*Type{I32, U32}[r.Intn(2)]
 	s := &Switch{Sel: g.genExpr(t, g.depthCfg()-1)}
 	nc := r.Range(1, 4)
-	if g.nest && r.Bool() {
+	if g.nest && r.Bool() || g.singleSwitch {
 		nc = 1 // single-body switch (the text backends render it as do { } while (false))
 	}
 	used := map[int64]bool{}
@@ -572,10 +572,49 @@ func (g *Gen) genStmts(n int) []Stmt {
 	}
 	g.fx.depth++
 	defer func() { g.fx.depth-- }()
+	// nesting script (control-nesting profile): the first statement of successive statement lists is forced to be the
+	// next construct of the script, so that a prescribed nest such as loop > single-body switch > loop > single-body
+	// switch > conditional continue is actually reached; everything around it stays random
+	forced := byte(0)
+	if g.fx.f != nil && g.scriptPos < len(g.script) {
+		forced = g.script[g.scriptPos]
+		g.scriptPos++
+		n = max(n, 3)
+	}
 	for i := 0; i < n; i++ {
 		var s Stmt
 		var ss []Stmt
 		term := false
+		if i == 0 && forced != 0 {
+			switch forced {
+			case 'L':
+				ss = g.genLoop(max(2, n/2))
+			case 'S', 's':
+				g.singleSwitch = forced == 's'
+				s = g.genSwitch(max(2, n))
+				g.singleSwitch = false
+			case 'C':
+				if g.fx.inLoop && !g.fx.inCont && (g.fx.inSwitch <= 1 || g.on("stmt.continue-in-switch")) {
+					var t Stmt = &Continue{}
+					g.feat("stmt.continue")
+					if g.fx.inSwitch > 0 {
+						g.feat("stmt.continue-in-switch")
+					} else if r.Bool() {
+						t = &Break{}
+						g.feat("stmt.break")
+					}
+					s = &If{Cond: g.genExpr(Bool, 2), Then: []Stmt{t}}
+				}
+			}
+			if s != nil || len(ss) > 0 {
+				g.feat("nest.script." + g.script)
+				if s != nil {
+					out = append(out, s)
+				}
+				out = append(out, ss...)
+				continue
+			}
+		}
 		weights := []int{10, 6, 3, 2, 3, 2, 1, 1, 1, 1, 1}
 		if g.nest {
 			// control-nesting profile: loops in switches in loops, single-body switches, break / continue at every level
